@@ -138,4 +138,13 @@ def expect_rl(out, exp, what, strict=False, check_dtype=True, **info):
         raise Violation(what + ":values", expected=jsonable(exp), got=jsonable(arr), length=int(n), **info)
     if check_dtype and exp.size and arr.dtype != exp.dtype:
         raise Violation(what + ":dtype", expected=str(exp.dtype), got=str(arr.dtype), **info)
+    # the object's own metadata and np.asarray agree with what it decodes to
+    meta = lib(lambda: (int(x.size), tuple(int(t) for t in x.shape), np.dtype(x.dtype), np.asarray(x)))
+    if not meta.ok:
+        raise Violation(what + ":metadata-unreadable", got=meta.brief(), **info)
+    size, shape, dt, dense = meta.value
+    if size != len(exp) or shape != (len(exp),) or (check_dtype and exp.size and dt != exp.dtype):
+        raise Violation(what + ":metadata", expected=[len(exp), [len(exp)], str(exp.dtype)], got=[size, list(shape), str(dt)], **info)
+    if dense.shape != exp.shape or not arrays_equal(dense, exp):
+        raise Violation(what + ":asarray", expected=jsonable(exp), got=jsonable(dense), **info)
     check_canonical(x, len(exp), strict, what, **info)
